@@ -3,6 +3,7 @@ package props
 import (
 	"bytes"
 	"fmt"
+	"sort"
 	"strings"
 
 	cedar "github.com/cedar-policy/cedar-go"
@@ -179,6 +180,140 @@ func c08long(c *mon.Ctx) {
 		w.Count("long rendering: " + places[d.place] + " of " + strClass(chars[d.ch]) + " characters")
 		if c08roundtrip(w, w.Rand(), bridge.ToPolicy(mp), mp, "programmatic") {
 			w.NonTrivial(places[d.place] + "/" + chars[d.ch] + "/" + string(rune('0'+d.pad)) + "/" + string(rune('0'+d.ln)))
+		}
+	})
+}
+
+// c08bulk: LARGE collections. One parser object reads a whole document, so anything it counts per
+// policy (nesting budgets, token budgets, buffers) accumulates across the policies of a list; the
+// other streams render and re-read one policy (or at most a handful) at a time. Here 1100..2600
+// policies - each holding conditionals, parentheses, sets, records and calls - go through
+// PolicyList.MarshalCedar, PolicySet.MarshalCedar and one Encoder stream, and the rendering must
+// parse back to the same policies in the documented order; likewise ONE policy with that many
+// when-clauses.
+func c08bulk(c *mon.Ctx) {
+	sizes := []int{1100, 1300, 2600}
+	chans := []string{"PolicyList", "PolicySet", "Encoder->Decoder", "one policy, many clauses"}
+	c.ParFor("bulk", len(sizes)*len(chans)*c.N(1, 4), func(w *mon.W, i int) {
+		r := w.Rand()
+		n, ch := sizes[i%len(sizes)], chans[(i/len(sizes))%len(chans)]
+		mkBody := func(k int) *model.Expr {
+			L := model.Lit
+			leaf := model.Bin(model.OEq, model.Access(model.Var("context"), "n"), L(model.Long(int64(k))))
+			switch r.Intn(6) {
+			case 0:
+				return model.If(leaf, L(model.Bool(true)), L(model.Bool(false)))
+			case 1:
+				return model.If(model.If(leaf, L(model.Bool(false)), L(model.Bool(true))), model.Bin(model.OContains, model.SetE(model.If(leaf, L(model.Long(1)), L(model.Long(2)))), L(model.Long(1))), leaf)
+			case 2:
+				return model.Bin(model.OAnd, model.Bin(model.OOr, leaf, L(model.Bool(false))), model.Un(model.ONot, model.Un(model.ONot, leaf)))
+			case 3:
+				return model.Bin(model.OEq, model.Access(model.RecE([]string{"k", "two words"}, []*model.Expr{model.If(leaf, L(model.Long(1)), L(model.Long(2))), L(model.Str("s"))}), "k"), L(model.Long(1)))
+			case 4:
+				return model.Bin(model.OLt, model.Bin(model.OMul, model.Bin(model.OAdd, L(model.Long(int64(k))), L(model.Long(-1))), L(model.Long(2))), model.Un(model.ONeg, L(model.Long(3))))
+			}
+			e := gen.RandPolicy(r, gen.ExprCfg{PIll: 0.05, SafeDT: true, WellFormedExt: true}, 2)
+			sanitizePolicy(e)
+			if len(e.Conds) > 0 {
+				return e.Conds[0].Body
+			}
+			return leaf
+		}
+		w.Evals(n)
+		w.Count("bulk via " + ch)
+		w.NonTrivial(fmt.Sprintf("bulk/%s/%d/%d", ch, n, i))
+		fail := func(sig, what string) {
+			w.Violation(sig+" [large collection, "+ch+"]", what, map[string]any{"policies": n, "channel": ch})
+		}
+		if ch == "one policy, many clauses" {
+			mp := &model.Policy{Permit: true}
+			for k := 0; k < n; k++ {
+				mp.Conds = append(mp.Conds, model.Cond{When: r.P(0.8), Body: mkBody(k)})
+			}
+			cp := NewPolicy(bridge.ToPolicy(mp))
+			text := cp.MarshalCedar()
+			var back cedar.Policy
+			if err := back.UnmarshalCedar(text); err != nil {
+				fail("MarshalCedar output does not parse", fmt.Sprintf("a policy with %d when/unless clauses renders to text that is rejected: %v", n, err))
+				return
+			}
+			if !bytes.Equal(back.MarshalCedar(), text) {
+				fail("second rendering differs", fmt.Sprintf("a policy with %d clauses re-renders differently", n))
+			}
+			return
+		}
+		pols := make([]*cedar.Policy, n)
+		texts := make([]string, n)
+		for k := range pols {
+			mp := &model.Policy{Permit: r.Bool(), Conds: []model.Cond{{When: true, Body: mkBody(k)}}}
+			pols[k] = NewPolicy(bridge.ToPolicy(mp))
+			texts[k] = string(pols[k].MarshalCedar())
+		}
+		var back []*cedar.Policy
+		want := texts
+		switch ch {
+		case "PolicyList":
+			doc := cedar.PolicyList(pols).MarshalCedar()
+			pl, err := cedar.NewPolicyListFromBytes("bulk.cedar", doc)
+			if err != nil {
+				fail("MarshalCedar output does not parse", fmt.Sprintf("PolicyList of %d policies renders to a document that is rejected: %v", n, err))
+				return
+			}
+			back = pl
+		case "PolicySet":
+			ps := cedar.NewPolicySet()
+			ids := make([]string, n)
+			byID := map[string]string{}
+			for k, p := range pols {
+				ids[k] = fmt.Sprintf("id%d", k)
+				ps.Add(cedar.PolicyID(ids[k]), p)
+				byID[ids[k]] = texts[k]
+			}
+			sort.Strings(ids)
+			want = make([]string, n)
+			for k, id := range ids {
+				want[k] = byID[id]
+			}
+			pl, err := cedar.NewPolicyListFromBytes("bulk.cedar", ps.MarshalCedar())
+			if err != nil {
+				fail("MarshalCedar output does not parse", fmt.Sprintf("PolicySet of %d policies renders to a document that is rejected: %v", n, err))
+				return
+			}
+			back = pl
+		default:
+			var buf bytes.Buffer
+			enc := cedar.NewEncoder(&buf)
+			for _, p := range pols {
+				if err := enc.Encode(p); err != nil {
+					fail("Encoder fails", err.Error())
+					return
+				}
+			}
+			dec := cedar.NewDecoder(bytes.NewReader(buf.Bytes()))
+			for {
+				var p cedar.Policy
+				if err := dec.Decode(&p); err != nil {
+					if len(back) != n {
+						fail("MarshalCedar output does not parse", fmt.Sprintf("Encoder stream of %d policies: decoding stops after %d with %v", n, len(back), err))
+						return
+					}
+					break
+				}
+				back = append(back, &p)
+				if len(back) > n {
+					break
+				}
+			}
+		}
+		if len(back) != n {
+			fail("round trip changes the number of policies", fmt.Sprintf("%d rendered, %d parsed back", n, len(back)))
+			return
+		}
+		for k := range back {
+			if got := string(back[k].MarshalCedar()); got != want[k] {
+				fail("round trip changes a policy or the order", fmt.Sprintf("position %d: %q, want %q", k, clip(got, 200), clip(want[k], 200)))
+				return
+			}
 		}
 	})
 }
